@@ -99,6 +99,13 @@ def gen_keys(rng, n, debug_bias=0.15):
         wrap = rng.choice(['%s', '%s', ':not(%s)', 'input%s', ':is(a, p)%s'])
         for flag in rng.sample(['', ' i', ' s'], 2):
             keys.append({'pattern': wrap % f'[{a}{op}{v}{flag}]', 'ns': None, 'custom': None, 'flags': 0})
+    if rng.random() < 0.12:
+        # patterns that the parser's input preprocessing folds together (U+0000 is read as U+FFFD): different pattern
+        # strings, hence different keys and unequal compiled selectors, each reporting the pattern it was given
+        pat = rng.choice(_PREPROCESS_TWINS)
+        keys.append({'pattern': pat, 'ns': None, 'custom': None, 'flags': 0})
+        keys.append({'pattern': pat.replace('\x00', '\ufffd'), 'ns': None, 'custom': None, 'flags': 0,
+                     'variant_of': len(keys) - 1})
     while len(keys) < n:
         r = rng.random()
         if keys and r < 0.35:
@@ -142,6 +149,9 @@ def gen_keys(rng, n, debug_bias=0.15):
             keys.append(k)
     return keys
 
+
+_PREPROCESS_TWINS = ['p.a\x00b', '#i\x00d', '[title="a\x00"]', ':-soup-contains("x\x00y")', 'a\x00 > b', 'div:is(.c\x00, p)',
+                     '[data-x\x00]', 'p:lang("e\x00")']
 
 _NEAR = [('2n+1', '2n+2'), ('odd', 'even'), ('(2)', '(3)'), ('n+2', 'n+3'), ('-n+3', '-n+2'), ('(en', '(de'),
          ('"en-US"', '"en-GB"'), ('ltr', 'rtl'), ('[id', '[class'), ('^=', '$='), ('*=', '~='), ('|=', '='),
